@@ -1525,8 +1525,8 @@ func checkShowJS(t reflect.Type, types []reflect.Type) error {
 		switch {
 		case key == reflect.String:
 		case reflect.Bool <= key && key <= reflect.Complex128:
-		case t.Implements(stringerType):
-		case t.Implements(envStringerType):
+		case t.Key().Implements(stringerType):
+		case t.Key().Implements(envStringerType):
 		default:
 			return fmt.Errorf("cannot show map with %s key as JavaScript", t.Key())
 		}
@@ -1582,8 +1582,8 @@ func checkShowJSON(t reflect.Type, types []reflect.Type) error {
 		switch {
 		case key == reflect.String:
 		case reflect.Bool <= key && key <= reflect.Complex128:
-		case t.Implements(stringerType):
-		case t.Implements(envStringerType):
+		case t.Key().Implements(stringerType):
+		case t.Key().Implements(envStringerType):
 		default:
 			return fmt.Errorf("cannot show map with %s key as JSON", t.Key())
 		}
